@@ -223,7 +223,10 @@ func ZZ_C05_refresh_step() {
 	// ---- the refresh request
 	presenter := "c1"
 	if free(dimPresenter) {
-		presenter = []string{"c1", "c2"}[zz.Choice("presenter", 2)]
+		// the owner, another confidential client, or a registered public client that owns nothing
+		presenter = []string{"c1", "c2", "c3"}[zz.Choice("presenter", 3)]
+		wd.Store.Clients["c3"] = &fosite.DefaultClient{ID: "c3", Public: true, GrantTypes: []string{"authorization_code", "refresh_token"},
+			Scopes: append([]string{}, c1.Scopes...), Audience: append([]string{}, c1.Audience...)}
 	}
 	form := url.Values{"grant_type": {"refresh_token"}, "refresh_token": {rt0}}
 	if free(dimRequestParams) {
